@@ -43,6 +43,11 @@ pub trait GcManaged {
     fn mark(&self);
 
     fn blacken(&self);
+
+    #[cfg(feature = "verif_hooks")]
+    fn verif_dead_range(&self) -> Option<(usize, usize)> {
+        None
+    }
 }
 
 type GcBoxPtr<T> = NonNull<GcBox<T>>;
@@ -51,6 +56,8 @@ struct GcBox<T: GcManaged + ?Sized> {
     colour: Cell<Colour>,
     num_roots: Cell<usize>,
     _pin: PhantomPinned,
+    #[cfg(feature = "verif_hooks")]
+    verif: verif::BoxInfo,
     pub(crate) data: T,
 }
 
@@ -122,6 +129,10 @@ impl<T: 'static + GcManaged + ?Sized> Root<T> {
 
 impl<T: GcManaged + ?Sized> Root<T> {
     fn gc_box(&self) -> &GcBox<T> {
+        #[cfg(feature = "verif_hooks")]
+        unsafe {
+            self.ptr.as_ref().verif.check_use();
+        }
         unsafe { self.ptr.as_ref() }
     }
 
@@ -218,6 +229,10 @@ impl<T: 'static + GcManaged + ?Sized> UniqueRoot<T> {
 
 impl<T: GcManaged + ?Sized> UniqueRoot<T> {
     fn gc_box(&self) -> &GcBox<T> {
+        #[cfg(feature = "verif_hooks")]
+        unsafe {
+            self.ptr.as_ref().verif.check_use();
+        }
         unsafe { self.ptr.as_ref() }
     }
 
@@ -286,6 +301,10 @@ impl<T: 'static + GcManaged> Gc<T> {
 
 impl<T: 'static + GcManaged + ?Sized> Gc<T> {
     fn gc_box(&self) -> &GcBox<T> {
+        #[cfg(feature = "verif_hooks")]
+        unsafe {
+            self.ptr.as_ref().verif.check_use();
+        }
         unsafe { self.ptr.as_ref() }
     }
 }
@@ -356,6 +375,10 @@ impl Heap {
     }
 
     fn allocate_raw<T: 'static + GcManaged>(&mut self, data: T) -> GcBoxPtr<T> {
+        #[cfg(feature = "verif_hooks")]
+        if verif::before_alloc() {
+            self.collect();
+        }
         if cfg!(any(debug_assertions, feature = "debug_stress_gc")) {
             self.collect();
         } else {
@@ -365,6 +388,8 @@ impl Heap {
             colour: Cell::new(Colour::White),
             num_roots: Cell::new(0),
             _pin: PhantomPinned,
+            #[cfg(feature = "verif_hooks")]
+            verif: verif::BoxInfo::new(any::type_name::<T>(), mem::size_of::<T>()),
             data,
         });
 
@@ -374,6 +399,9 @@ impl Heap {
         let size = mem::size_of::<T>();
 
         self.bytes_allocated += size;
+
+        #[cfg(feature = "verif_hooks")]
+        verif::after_alloc(self, any::type_name::<T>(), size);
 
         if cfg!(feature = "debug_trace_gc") {
             let new_ptr = self.objects.last().unwrap();
@@ -389,6 +417,10 @@ impl Heap {
     }
 
     fn collect(&mut self) {
+        #[cfg(feature = "verif_hooks")]
+        if !verif::allow_collect() {
+            return;
+        }
         if cfg!(feature = "debug_trace_gc") {
             println!("-- gc begin")
         }
@@ -400,6 +432,9 @@ impl Heap {
         let prev_bytes_allocated = self.bytes_allocated;
         self.bytes_allocated -= bytes_freed;
         self.collection_threshold = self.bytes_allocated * common::HEAP_GROWTH_FACTOR;
+
+        #[cfg(feature = "verif_hooks")]
+        verif::after_collect(self, bytes_freed);
 
         if cfg!(feature = "debug_trace_gc") {
             println!("-- gc end (freed {} bytes)", bytes_freed);
@@ -455,6 +490,9 @@ impl Heap {
             })
             .sum();
 
+        #[cfg(feature = "verif_hooks")]
+        verif::quarantine_whites(&mut self.objects);
+
         self.objects.retain(|obj| obj.colour.get() == Colour::Black);
 
         bytes_marked
@@ -478,6 +516,11 @@ impl<T: GcManaged> GcManaged for RefCell<T> {
 
     fn blacken(&self) {
         self.borrow().blacken();
+    }
+
+    #[cfg(feature = "verif_hooks")]
+    fn verif_dead_range(&self) -> Option<(usize, usize)> {
+        self.try_borrow().ok().and_then(|b| b.verif_dead_range())
     }
 }
 
@@ -520,5 +563,291 @@ impl<T: GcManaged> GcManaged for &[T] {
         for i in 0..self.len() {
             self[i].blacken();
         }
+    }
+}
+
+/// Verification hooks (cargo feature `verif_hooks`, off by default). Everything in here is inert
+/// until a controller arms it: with the default `Pacing::Native` and quarantine off the heap
+/// behaves exactly as it does without the feature.
+#[cfg(feature = "verif_hooks")]
+pub mod verif {
+    use super::*;
+
+    #[derive(Clone, Debug, PartialEq)]
+    pub enum Pacing {
+        /// The heap's own pacing (collect-always in checked builds, threshold otherwise).
+        Native,
+        /// Never collect (unless forced through `collect_now`).
+        Never,
+        /// Collect before every allocation.
+        Always,
+        /// Collect before allocation `i` iff bit `i` of the tape is set.
+        Tape(Vec<u8>),
+    }
+
+    #[derive(Clone, Debug)]
+    pub enum Event {
+        Alloc {
+            index: usize,
+            type_name: &'static str,
+            size: usize,
+            bytes_allocated: usize,
+            threshold: usize,
+        },
+        Collect {
+            index: usize,
+            live_bytes: usize,
+            live_objects: usize,
+            rooted_objects: usize,
+            freed_objects: usize,
+            bytes_freed: usize,
+            bytes_allocated: usize,
+            threshold: usize,
+        },
+    }
+
+    #[derive(Clone, Debug)]
+    pub struct UseAfterReclaim {
+        pub type_name: &'static str,
+        pub allocated_at: usize,
+        pub used_at: usize,
+    }
+
+    pub(super) struct BoxInfo {
+        freed: Cell<bool>,
+        type_name: &'static str,
+        size: usize,
+        alloc_index: usize,
+    }
+
+    impl BoxInfo {
+        pub(super) fn new(type_name: &'static str, size: usize) -> Self {
+            BoxInfo {
+                freed: Cell::new(false),
+                type_name,
+                size,
+                alloc_index: ALLOCS.with(|a| a.get()),
+            }
+        }
+
+        #[inline(always)]
+        pub(super) fn check_use(&self) {
+            if self.freed.get() {
+                self.report_use();
+            }
+        }
+
+        #[cold]
+        fn report_use(&self) {
+            let used_at = ALLOCS.with(|a| a.get());
+            UAR.with(|u| {
+                if let Ok(mut u) = u.try_borrow_mut() {
+                    if u.len() < 64 {
+                        u.push(UseAfterReclaim {
+                            type_name: self.type_name,
+                            allocated_at: self.alloc_index,
+                            used_at,
+                        });
+                    }
+                }
+            });
+            UAR_COUNT.with(|c| c.set(c.get() + 1));
+        }
+    }
+
+    type Objects = Vec<Pin<Box<GcBox<dyn GcManaged>>>>;
+
+    thread_local! {
+        static PACING: RefCell<Pacing> = RefCell::new(Pacing::Native);
+        static QUARANTINE_ON: Cell<bool> = Cell::new(false);
+        static FORCING: Cell<bool> = Cell::new(false);
+        static ALLOCS: Cell<usize> = Cell::new(0);
+        static COLLECTIONS: Cell<usize> = Cell::new(0);
+        static UAR: RefCell<Vec<UseAfterReclaim>> = RefCell::new(Vec::new());
+        static UAR_COUNT: Cell<usize> = Cell::new(0);
+        static QUARANTINE: RefCell<Objects> = RefCell::new(Vec::new());
+        static DEAD_RANGES: RefCell<Vec<(usize, usize)>> = RefCell::new(Vec::new());
+        static OBSERVER: Cell<Option<fn(&Event)>> = Cell::new(None);
+    }
+
+    /// Arms the controller for the current thread and clears all counters.
+    pub fn configure(pacing: Pacing, quarantine: bool, observer: Option<fn(&Event)>) {
+        PACING.with(|p| *p.borrow_mut() = pacing);
+        QUARANTINE_ON.with(|q| q.set(quarantine));
+        OBSERVER.with(|o| o.set(observer));
+        FORCING.with(|f| f.set(false));
+        ALLOCS.with(|a| a.set(0));
+        COLLECTIONS.with(|c| c.set(0));
+        UAR.with(|u| u.borrow_mut().clear());
+        UAR_COUNT.with(|c| c.set(0));
+    }
+
+    pub fn allocations() -> usize {
+        ALLOCS.with(|a| a.get())
+    }
+
+    pub fn collections() -> usize {
+        COLLECTIONS.with(|c| c.get())
+    }
+
+    pub fn uses_after_reclaim() -> (usize, Vec<UseAfterReclaim>) {
+        (UAR_COUNT.with(|c| c.get()), UAR.with(|u| u.borrow().clone()))
+    }
+
+    pub fn quarantined() -> usize {
+        QUARANTINE.with(|q| q.borrow().len())
+    }
+
+    /// Drops everything that was swept into the quarantine.
+    pub fn purge() {
+        let boxes = QUARANTINE.with(|q| mem::take(&mut *q.borrow_mut()));
+        drop(boxes);
+        DEAD_RANGES.with(|d| d.borrow_mut().clear());
+    }
+
+    /// Forces a collection now, whatever the pacing mode.
+    pub fn collect_now() {
+        FORCING.with(|f| f.set(true));
+        HEAP.with(|h| h.borrow_mut().collect());
+        FORCING.with(|f| f.set(false));
+    }
+
+    /// (bytes_allocated, collection_threshold) as the pacing logic sees them.
+    pub fn heap_fields() -> (usize, usize) {
+        HEAP.with(|h| {
+            let h = h.borrow();
+            (h.bytes_allocated, h.collection_threshold)
+        })
+    }
+
+    /// Per type: (type name, objects, bytes, objects with a non-zero root count).
+    pub fn stats() -> Vec<(&'static str, usize, usize, usize)> {
+        HEAP.with(|h| {
+            let h = h.borrow();
+            let mut m: std::collections::BTreeMap<&'static str, (usize, usize, usize)> =
+                Default::default();
+            for o in &h.objects {
+                let e = m.entry(o.verif.type_name).or_insert((0, 0, 0));
+                e.0 += 1;
+                e.1 += o.verif.size;
+                if o.num_roots.get() > 0 {
+                    e.2 += 1;
+                }
+            }
+            m.into_iter().map(|(k, v)| (k, v.0, v.1, v.2)).collect()
+        })
+    }
+
+    /// Records a use-after-reclaim if `address` lies in the value stack of a swept fiber.
+    pub fn check_stack_address(address: usize) {
+        let dead = DEAD_RANGES.with(|d| {
+            d.try_borrow()
+                .map(|d| d.iter().any(|&(lo, hi)| address >= lo && address < hi))
+                .unwrap_or(false)
+        });
+        if dead {
+            let used_at = ALLOCS.with(|a| a.get());
+            UAR.with(|u| {
+                if let Ok(mut u) = u.try_borrow_mut() {
+                    if u.len() < 64 {
+                        u.push(UseAfterReclaim {
+                            type_name: "open upvalue -> value stack of a reclaimed fiber",
+                            allocated_at: 0,
+                            used_at,
+                        });
+                    }
+                }
+            });
+            UAR_COUNT.with(|c| c.set(c.get() + 1));
+        }
+    }
+
+    pub(super) fn before_alloc() -> bool {
+        let index = ALLOCS.with(|a| a.get());
+        let force = PACING.with(|p| match &*p.borrow() {
+            Pacing::Always => true,
+            Pacing::Tape(bits) => bits
+                .get(index / 8)
+                .map(|b| b & (1 << (index % 8)) != 0)
+                .unwrap_or(false),
+            _ => false,
+        });
+        if force {
+            FORCING.with(|f| f.set(true));
+        }
+        force
+    }
+
+    pub(super) fn allow_collect() -> bool {
+        if FORCING.with(|f| f.replace(false)) {
+            return true;
+        }
+        PACING.with(|p| *p.borrow() == Pacing::Native)
+    }
+
+    pub(super) fn after_alloc(heap: &Heap, type_name: &'static str, size: usize) {
+        let index = ALLOCS.with(|a| a.replace(a.get() + 1));
+        if let Some(observer) = OBSERVER.with(|o| o.get()) {
+            observer(&Event::Alloc {
+                index,
+                type_name,
+                size,
+                bytes_allocated: heap.bytes_allocated,
+                threshold: heap.collection_threshold,
+            });
+        }
+    }
+
+    pub(super) fn after_collect(heap: &Heap, bytes_freed: usize) {
+        COLLECTIONS.with(|c| c.set(c.get() + 1));
+        if let Some(observer) = OBSERVER.with(|o| o.get()) {
+            let live_bytes = heap.objects.iter().map(|o| o.verif.size).sum();
+            let rooted_objects = heap
+                .objects
+                .iter()
+                .filter(|o| o.num_roots.get() > 0)
+                .count();
+            observer(&Event::Collect {
+                index: ALLOCS.with(|a| a.get()),
+                live_bytes,
+                live_objects: heap.objects.len(),
+                rooted_objects,
+                freed_objects: LAST_FREED.with(|l| l.replace(0)),
+                bytes_freed,
+                bytes_allocated: heap.bytes_allocated,
+                threshold: heap.collection_threshold,
+            });
+        }
+    }
+
+    thread_local! {
+        static LAST_FREED: Cell<usize> = Cell::new(0);
+    }
+
+    pub(super) fn quarantine_whites(objects: &mut Objects) {
+        let whites = objects
+            .iter()
+            .filter(|o| o.colour.get() != Colour::Black)
+            .count();
+        LAST_FREED.with(|l| l.set(whites));
+        if whites == 0 || !QUARANTINE_ON.with(|q| q.get()) {
+            return;
+        }
+        let mut kept = Vec::with_capacity(objects.len());
+        QUARANTINE.with(|q| {
+            let mut q = q.borrow_mut();
+            for obj in objects.drain(..) {
+                if obj.colour.get() == Colour::Black {
+                    kept.push(obj);
+                } else {
+                    obj.verif.freed.set(true);
+                    if let Some(range) = obj.data.verif_dead_range() {
+                        DEAD_RANGES.with(|d| d.borrow_mut().push(range));
+                    }
+                    q.push(obj);
+                }
+            }
+        });
+        *objects = kept;
     }
 }
